@@ -255,6 +255,8 @@ type vf04Source struct {
 	// 0x0a0a placeholder - what an import that copies a captured list verbatim produces (ImportTLSClientHello), or a
 	// hand-written spec; they are GREASE all the same and vary per connection
 	concrete bool
+	// quic: the hello is built by a UQUICConn (UQUICClient): no legacy session id, same GREASE rules
+	quic bool
 }
 
 // vf04Concretize replaces every GREASE value of the spec's cipher, group, version and key-share lists by a fixed
@@ -298,6 +300,9 @@ func (s *vf04Source) name() string {
 	if s.concrete {
 		k += "(concrete reserved values in the spec)"
 	}
+	if s.quic {
+		k += "(UQUICClient)"
+	}
 	if s.share {
 		return k + "(one spec object for all connections):" + s.parrot.Name
 	}
@@ -331,6 +336,11 @@ func vf04Hello(s *vf04Source, rnd *vfDetRand, name string) (raw []byte, exp vf04
 		}
 		exp = vf04ExpectOf(&spec)
 		c := UClient(cp, cfg, s.id)
+		if s.quic {
+			q := UQUICClient(&QUICConfig{TLSConfig: cfg}, s.id)
+			q.SetTransportParameters([]byte{})
+			c = q.conn
+		}
 		if err = c.BuildHandshakeState(); err != nil {
 			return
 		}
@@ -443,6 +453,9 @@ func vf04RunSource(st *vfStats, t vfFataler, s *vf04Source, conns int, streamSee
 	if s.share {
 		st.Class("source:one-spec-object-reused")
 	}
+	if s.quic {
+		st.Class("source:built-by-UQUICClient")
+	}
 	if seen.withGrease > 0 {
 		st.Class("with-grease:" + s.kind)
 		st.NonTrivial(fmt.Sprintf("%s|%d|%v", s.name(), streamSeed, det))
@@ -472,7 +485,7 @@ func vf04GenSource(rt *rapid.T) *vf04Source {
 		return &vf04Source{kind: "json", parrot: p, id: p.ID}
 	default:
 		p := vfGenParrot(rt, "parrot")
-		return &vf04Source{kind: "parrot", parrot: p, id: p.ID}
+		return &vf04Source{kind: "parrot", parrot: p, id: p.ID, quic: rapid.IntRange(0, 3).Draw(rt, "via_uquic") == 0}
 	}
 }
 
@@ -502,6 +515,7 @@ func TestVerifC04AllParrots(t *testing.T) {
 	for i, p := range vfParrots {
 		vf04RunSource(st, t, &vf04Source{kind: "parrot", parrot: p, id: p.ID}, vf04Conns, uint64(1000+i), true)
 		vf04RunSource(st, t, &vf04Source{kind: "parrot", parrot: p, id: p.ID}, 16, 0, false)
+		vf04RunSource(st, t, &vf04Source{kind: "parrot", parrot: p, id: p.ID, quic: true}, 16, uint64(6000+i), true)
 		vf04RunSource(st, t, &vf04Source{kind: "fingerprinted", parrot: p, id: p.ID}, vf04Conns, uint64(2000+i), true)
 		vf04RunSource(st, t, &vf04Source{kind: "json", parrot: p, id: p.ID}, 8, uint64(3000+i), true)
 		vf04RunSource(st, t, &vf04Source{kind: "fingerprinted", parrot: p, id: p.ID, share: true}, 12, uint64(4000+i), true)
